@@ -147,9 +147,10 @@ CHECKS = {
         text='Seeded histories of setBreakpoints / setFunctionBreakpoints / setInstructionBreakpoints requests with conditions, hit conditions and '
              'log messages, made before the program starts, at stops and after restart, on a program whose events per iteration are known (entry '
              'instruction and first body line of two functions, a later body line, a generic function with three instantiations, an inlined '
-             'helper): every `stopped` event (identified by the top frame) must be the next stop of the model for the latest sets, log points must '
-             'produce exactly their outputs and never stop, `verified` must be true exactly for locations with code. Held for breakpoints '
-             'created while the program runs on single locations; the listed known findings cover pre-start records and multi-location lines.',
+             'helper): every `stopped` event (identified by the top frame AND the program\'s own iteration counter, read from /proc/pid/mem) must be the next '
+             'stop of the model for the latest sets, log points must produce exactly their outputs and never stop, `verified` must be true '
+             'exactly for locations with code. Held on the histories explored after five fix commits (all locations of a line recorded, bare '
+             'variable name as condition, first stop after restart, records keyed by breakpoint number); no known finding is left.',
         note='Trusted: determinism of the generated program and its event order. Violation signatures carry the location kind (single / multi) and '
              'when the offending record was created, so that a defect of one timing class cannot hide one of another.',
         ref='DESIGN.md §4 C13'),
@@ -169,9 +170,12 @@ CHECKS = {
     'C06': dict(
         technique='runtime monitoring: structural comparison of the debugger\'s Value trees with the debuggee\'s own canonical self-description (reference model = safe Rust in the program)',
         text='Generated programs hold ~40 variables each (locals, statics, thread-locals, arguments) from a recursive type grammar with boundary '
-             'values and collections built by operation histories (tombstoned and dense hash tables, wrapped VecDeque rings, multi-level B-trees); '
+             'values and collections built by operation histories (tombstoned and dense hash tables, wrapped VecDeque rings; every program also holds a B-tree map and set of 150-700 entries (three or more levels) and a hash '
+             'table of that size); '
              'every Value tree returned by the debugger is compared with what the program prints about itself: scalars bit-exact, sequences in '
-             'order, sets/maps as multisets, enum variant and payload, pointer targets. Held on the variables explored except the known findings.',
+             'order, sets/maps as multisets, enum variant and payload, pointer targets. Thorough tier (or VERIF_ASAN=1) repeats the comparison '
+             'with the AddressSanitizer build of the worker (readers of hashbrown tables, B-trees, Rc/Arc on well-formed data). Held on the '
+             'variables explored except the known findings.',
         note='Trusted: the Canon trait implementations in the generated program (safe Rust iteration) and the native run. Slices are shown by '
              'BugStalker as (data_ptr, length); only those facts are judged for slices.',
         ref='DESIGN.md §4 C06'),
@@ -180,7 +184,9 @@ CHECKS = {
         text='For every generated binary of the configuration matrix every instruction boundary of every user function is resolved to '
              'function and file:line, every source line and every function name is turned into breakpoint addresses, and the answers are '
              'compared with the reference decode: governing row for a pc, statements of the line (or the next line) with one address per '
-             'function instance, prologue-end address inside the function. Held on the binaries explored except the known findings.',
+             'function instance, prologue-end address inside the function. A second leg compiles a library crate whose generic functions are '
+             'instantiated in the binary, so that one source file has code in two compilation units, and asks for every line of it. Held on '
+             'the binaries explored except the known finding.',
         note='Trusted: llvm-dwarfdump line table / DIE ranges, llvm-objdump instruction boundaries. Only user compilation units are judged; '
              'function names are accepted in either DIE-path or demangled-linkage form.',
         ref='DESIGN.md §4 C04'),
